@@ -336,7 +336,10 @@ class Base(_BaseClass):
         if starttoken:
             resulttokens.append(starttoken)
             val = starttoken[1]
-            if '[' == val:
+            if Base._prods.IDENT == starttoken[0]:
+                # an identifier spelled with an escape (e.g. ``\28``) is no bracket
+                pass
+            elif '[' == val:
                 bracket += 1
             elif '{' == val:
                 brace += 1
@@ -350,7 +353,12 @@ class Base(_BaseClass):
                     resulttokens.append(token)
                     break
 
-                if '{' == val:
+                if Base._prods.IDENT == typ:
+                    # an identifier spelled with an escape (e.g. ``\28``) is
+                    # no bracket and no end character
+                    resulttokens.append(token)
+                    continue
+                elif '{' == val:
                     brace += 1
                 elif '}' == val:
                     brace -= 1
